@@ -17,13 +17,14 @@ struct Item {
 };
 struct Scenario {
     std::string name;
-    long B = 0x20000, Q = 10, post = 0, nreads = -1, method = 0, level = 0, cut = -1;
+    long B = 0x20000, Q = 10, post = 0, nreads = -1, method = 0, level = 0, cut = -1, chop = 0;
     std::string tail = "eof";
     std::vector<Item> items;
     std::vector<long> conts;
     // derived
     std::vector<uint8_t> stream, filebytes;
     std::string filename;
+    std::vector<long> expected;   // ids a complete read delivers (filled by describe())
 };
 
 static std::vector<Scenario> load_scenarios(const char * fn) {
@@ -46,6 +47,7 @@ static std::vector<Scenario> load_scenarios(const char * fn) {
                 else if (k == "METHOD") s.method = atol(x.c_str());
                 else if (k == "LEVEL") s.level = atol(x.c_str());
                 else if (k == "CUT") s.cut = atol(x.c_str());
+                else if (k == "CHOP") s.chop = atol(x.c_str());
                 else if (k == "TAIL") s.tail = x;
             }
         } else if (w[0] == "ITEM") {
@@ -100,6 +102,23 @@ static void build(Scenario & s, const std::string & dir, bool writeFile) {
             b = kit::unhex(it.hex);
         }
         s.stream.insert(s.stream.end(), b.begin(), b.end());
+    }
+    if (s.chop > 0) {        // containers of a fixed size (the last one short)
+        s.conts.clear();
+        for (long off = 0; off < (long) s.stream.size(); off += s.chop)
+            s.conts.push_back(std::min(s.chop, (long) s.stream.size() - off));
+    }
+    {   // normalise the partition: never beyond the stream, and covering all of it
+        std::vector<long> fixed;
+        long rem = (long) s.stream.size();
+        for (long u : s.conts) {
+            if (rem <= 0) break;
+            long v = std::min(u, rem);
+            fixed.push_back(v);
+            rem -= v;
+        }
+        if (rem > 0 || fixed.empty()) fixed.push_back(rem);
+        s.conts = fixed;
     }
     // file = statistics header + containers
     FileStatistics fs;
@@ -172,6 +191,7 @@ static std::string describe(Scenario & s) {
     }
     o.raw("objs", jarr(objs.begin(), objs.end(), [](const std::string & x) { return x; }));
     o.raw("expected", jarr(expected.begin(), expected.end(), [](long v) { return jint(v); }));
+    s.expected = expected;
     return o.str();
 }
 
@@ -319,15 +339,30 @@ int main(int argc, char ** argv) {
             for (size_t si = 0; !bad && si < p.steps.size(); si++) {
                 const PStep & s = p.steps[si];
                 const std::string & t = s.act.at(0);
+                if (t == "spur") {       // spurious wake-up of the thread named in the argument
+                    const std::string & w = s.act.at(1);
+                    vsched::spurious_wake(w == "A" ? 0 : w == "U" ? 1 : 2);
+                    st.steps++;
+                    got = project(S);
+                    if (got != s.expect) { st.mismatch(pi, si, sc->name + " " + join_words(s.act), s.expect, got); bad = true; }
+                    continue;
+                }
                 int tid = t == "A" ? 0 : t == "U" ? 1 : 2;
                 if (!vsched::runnable(tid)) {
                     st.mismatch(pi, si, sc->name + " " + join_words(s.act), "\"thread can step\"", project(S));
                     bad = true;
                     break;
                 }
+                std::string before = got;
                 vsched::step(tid);
                 st.steps++;
                 got = project(S);
+                // tolerate extra invisible steps of the implementation (e.g. an added observer call):
+                // a step that changes nothing observable where the spec expects a change is retried
+                for (int extra = 0; extra < 3 && got != s.expect && got == before && vsched::runnable(tid); extra++) {
+                    vsched::step(tid);
+                    got = project(S);
+                }
                 if (got != s.expect) { st.mismatch(pi, si, sc->name + " " + join_words(s.act), s.expect, got); bad = true; }
             }
             std::string v = finish_session(S, 200000);
@@ -345,7 +380,8 @@ int main(int argc, char ** argv) {
         FILE * tf = argc > 5 ? fopen(argv[5], "w") : nullptr;
         std::mt19937_64 rng(seed);
         for (auto & sc : scs) {
-            long ok = 0, deadlock = 0, livelock = 0, steps = 0, maxHeld = 0, maxQ = 0;
+            describe(sc);
+            long ok = 0, deadlock = 0, livelock = 0, steps = 0, maxHeld = 0, maxQ = 0, wrongDelivery = 0;
             std::string firstBad;
             for (long r = 0; r < runs; r++) {
                 Session S;
@@ -362,7 +398,7 @@ int main(int argc, char ** argv) {
                     if (run.empty()) { verdict = vsched::all_finished() ? "" : "deadlock"; break; }
                     int t = run[rng() % run.size()];
                     // run the chosen thread for a random burst (keeps long stretches of one thread likely)
-                    long burst = 1 + (long) (rng() % 64);
+                    long burst = 1 + (long) (rng() % ((rng() % 8 == 0) ? 5000 : 64));   // occasionally starve the others
                     for (long b = 0; b < burst && vsched::runnable(t); b++) {
                         vsched::step(t);
                         steps++;
@@ -379,8 +415,23 @@ int main(int argc, char ** argv) {
                     }
                     if (budget <= 0) { verdict = "livelock"; break; }
                 }
-                if (verdict.empty()) ok++;
-                else {
+                if (verdict.empty()) {
+                    ok++;
+                    // result of the session: a complete read delivers exactly the expected ids, then nullptr;
+                    // an early close delivers a prefix
+                    std::vector<long> want = sc.expected;
+                    if (sc.nreads >= 0 && (long) want.size() > sc.nreads) want.resize((size_t) sc.nreads);
+                    else want.push_back(0);
+                    if (S.delivered != want) {
+                        wrongDelivery++;
+                        if (firstBad.empty()) {
+                            JObj o;
+                            o.puts("verdict", "wrong-delivery").put("run", r);
+                            o.raw("delivered", jarr(S.delivered.begin(), S.delivered.end(), [](long v) { return jint(v); }));
+                            firstBad = o.str();
+                        }
+                    }
+                } else {
                     if (verdict == "deadlock") deadlock++; else livelock++;
                     if (firstBad.empty()) {
                         JObj o;
@@ -394,7 +445,8 @@ int main(int argc, char ** argv) {
             JObj o;
             o.puts("driver", "rsession_random").puts("scen", sc.name).put("runs", runs).put("ok", ok)
                 .put("deadlock", deadlock).put("livelock", livelock).put("steps", steps)
-                .put("maxHeld", maxHeld).put("maxQ", maxQ);
+                .put("maxHeld", maxHeld).put("maxQ", maxQ).put("wrongDelivery", wrongDelivery)
+                .put("containers", (long) sc.conts.size()).put("streamBytes", (long) sc.stream.size());
             if (!firstBad.empty()) o.raw("first", firstBad);
             printf("RESULT %s\n", o.str().c_str());
         }
